@@ -245,9 +245,59 @@ def grid(ctx):
                     yield [sign, coeff, e]
 
 
+# ---- part 5: the other renderings of a number: string(), and numbers inside printed lists and contexts ----------------------
+
+RENDER_TEXT = "[string(x), string([x]), string({a: x}), string(-x), string(x) = string(y)]"
+
+
+def gen_render(src):
+    if src.bool(0.5):
+        lit = gen_literal(src)
+        return {"lit": ("-" if lit["neg"] else "") + lit["text"]}
+    return {"triple": list(dec.gen_d128(src))}
+
+
+def reqs_render(case):
+    if "lit" in case:
+        # the number enters as a literal of the expression
+        t = RENDER_TEXT.replace("-x", "-(%s)" % case["lit"]).replace("x", "(%s)" % case["lit"]).replace("y", "(%s)" % case["lit"])
+        return [{"op": "eval", "text": t}]
+    b = {"n": dec.sci(case["triple"])}
+    return [{"op": "eval", "text": RENDER_TEXT, "scope": [[["x", b], ["y", b]]]}]
+
+
+def judge_render(ctx, case, resp):
+    r = resp[0]
+    src_text = case.get("lit") or dec.sci(case["triple"])
+    value = Decimal(src_text)
+    if "values" not in r:
+        return Fail("C07/render-rejected", "string(%s): %r" % (src_text, r))
+    v = r["values"][0]
+    items = v.get("l") if isinstance(v, dict) else None
+    if not items or len(items) != 5 or not all(isinstance(i, dict) and "s" in i for i in items[:4]):
+        return Fail("C07/render-not-text", "string() of %s, of a list and of a context holding it: %r" % (src_text, v))
+    texts = [items[0]["s"], items[1]["s"], items[2]["s"], items[3]["s"]]
+    if not (texts[1].startswith("[") and texts[1].endswith("]")) or not (texts[2].startswith("{a: ") and texts[2].endswith("}")):
+        return Fail("C07/render-not-text", "string([x]) = %r, string({a: x}) = %r for x = %s" % (texts[1][:80], texts[2][:80], src_text))
+    shown = [("string(x)", texts[0], value), ("string([x])", texts[1][1:-1], value), ("string({a: x})", texts[2][4:-1], value), ("string(-x)", texts[3], value.copy_negate())]
+    nontrivial = value != value.to_integral_value() or abs(value) >= Decimal(10) ** 21 or (value != 0 and abs(value) < Decimal("0.000001"))
+    ctx.note(key=["render", src_text], nontrivial=nontrivial, labels=["render", "render:literal" if "lit" in case else "render:bound",
+             "render:fraction" if value != value.to_integral_value() else "render:integral"],
+             sample={"where": "string()", "value": src_text, "printed": texts[0][:80]})
+    for what, t, val in shown:
+        if not PLAIN.match(t):
+            return Fail("C07/not-plain", "%s for x = %s is %r which is not plain decimal text" % (what, src_text, t[:120]))
+        if Decimal(t) != val:
+            return Fail("C07/wrong-value", "%s for x = %s is %r which denotes %s" % (what, src_text, t[:120], Decimal(t)))
+    if items[4] is not True:
+        return Fail("C07/wrong-value", "string(x) = string(x) is %r for x = %s" % (items[4], src_text))
+    return None
+
+
 def setup(ctx):
     ctx.rule = ("cases: (sign, coefficient, exponent) triples of finite decimal128 values read by from_str, FEEL literals of <=34 significant "
-                "digits through parse+evaluate, xsd typed input, results of arithmetic; oracle: exact Decimal of the printed text vs exact "
+                "digits through parse+evaluate, xsd typed input, results of arithmetic, the text made by string() of a number (bound or literal, also negated and "
+                "inside a printed list / context); oracle: exact Decimal of the printed text vs exact "
                 "value, strict plain/JSON grammars, read-back equality. non-trivial: the library's internal text is scientific (the "
                 "rewriter ran) or the value is negative or has trailing zeros; distinct by (source, value, printed text)")
     ctx.assumptions = ["CPython decimal.Decimal(text) is exact for any digit string",
@@ -257,6 +307,7 @@ def setup(ctx):
     ctx.p_lit = ctx.register(Part("literal", gen_literal, reqs_literal, judge_literal))
     ctx.p_xsd = ctx.register(Part("xsd", gen_xsd, reqs_xsd, judge_xsd))
     ctx.p_arith = ctx.register(Part("arith", gen_arith, reqs_arith, judge_arith))
+    ctx.p_render = ctx.register(Part("render", gen_render, reqs_render, judge_render))
 
 
 def run(ctx):
@@ -266,6 +317,7 @@ def run(ctx):
     ctx.forall(ctx.p_lit, ctx.scale(10000, 1800000))
     ctx.forall(ctx.p_xsd, ctx.scale(5000, 900000))
     ctx.forall(ctx.p_arith, ctx.scale(15000, 2700000))
+    ctx.forall(ctx.p_render, ctx.scale(15000, 2700000))
 
 
 if __name__ == "__main__":
